@@ -20,29 +20,43 @@ TECHNIQUE = ("Lean 4 theorems about an executable model of the flat join kernels
 LEVEL_TEXT = ("Kernel-checked Lean theorems, for all key columns and payloads (no size bound): each flat kernel (left map "
               "right-unique / both-unique, inner map general / left-unique / both-unique, inner result size) returns exactly "
               "the corresponding projection of Spec.leftJoin / Spec.innerJoin on sorted keys with the uniqueness its flag "
-              "asserts, with no out-of-bounds access and within its fuel; Session.ordered_merge_left/right in every "
-              "non-streamed form (ndarray or Field arguments, no sinks or Field sinks) return, for every numeric payload, the "
-              "payload at the unique matching row or the empty value, and these forms agree; Session.ordered_merge_inner "
-              "lists exactly the matching pairs for every truthful flag combination (including the swapped left-unique "
-              "kernel used for right_unique only); Session.get_index returns the matching target row or a marker >= "
-              "INVALID_INDEX. The streamed form (legacy re-slicing drivers, every chunk size) is covered by the "
-              "correspondence only. The model is tied to the code by differential execution on an exhaustive small scope "
-              "and seeded random cases, JIT / interpreted / bounds-checked.")
+              "asserts, with no out-of-bounds access and within its fuel; Session.ordered_merge_left/right in EVERY form "
+              "(ndarray or Field arguments; no sinks, Field sinks, zero-initialised ndarray sinks; and the streamed form "
+              "through the legacy re-slicing drivers generate_ordered_map_to_left_right_unique_streamed_old / "
+              "ordered_map_valid_stream_old for every chunk size >= 1) return / write, for every numeric payload, the "
+              "payload at the unique matching row or the empty value, the streamed form leaves the relational join map in "
+              "the map field, and all forms agree (ordered_merge_left_correct, ordered_merge_right_correct, forms_agree, "
+              "forms_agree_right; streamed_old_left_map_eq_flat and streamed_old_map_valid_eq_flat state the two driver "
+              "refinements on their own); Session.ordered_merge_inner lists exactly the matching pairs for every truthful "
+              "flag combination (including the swapped left-unique kernel used for right_unique only), returned or written "
+              "to Field / zero-initialised ndarray sinks (inner_payloads_all_forms); "
+              "Session.merge_left/right/inner return, for numeric and indexed-string payloads, the payloads mapped through "
+              "whatever row pairs pandas.merge returned (the relational join by assumption); Session.get_index returns the "
+              "matching target row or a marker >= INVALID_INDEX; Session.join puts the value of each run of foreign-key "
+              "indices at the destination row it names and 0 elsewhere. The model is tied to the code by differential execution on "
+              "an exhaustive small scope and seeded random cases, JIT / interpreted / bounds-checked.")
 LEVEL_NOTE = ("The theorems are about the Lean model with the fixes D17, NC19a, NC19b, NC19c applied (fixes/*.patch; on the "
-              "unfixed tree the check reports the witnesses in corpus/C19 as violations). Three statements are `_partial` "
-              "(ordered_merge_left_correct_partial, ordered_merge_right_correct_partial, forms_agree_partial): not proved "
-              "are (a) that the legacy streamed drivers generate_ordered_map_to_left_right_unique_streamed_old and "
-              "ordered_map_valid_stream_old equal the flat kernels for every chunk size (the streamed form of "
-              "ordered_merge_left), (b) ndarray sinks; both are modelled and checked by the correspondence for chunk sizes "
-              "1..6 (and others in the random stream) on the exhaustive scope. Open finding NC19d (ordered_merge_* reject an "
-              "IndexedStringField payload) is modelled as found, has Witness theorems, and is excluded from the "
-              "ordered_merge theorems by their restriction to numeric payloads. Session.merge_left/right/inner delegate the "
-              "join to pandas.merge, which is a parameter of the model (assumed to return the relational join): no theorem "
-              "is stated for them; the mapping helpers they use are proved in C04 and the whole call is compared with the "
-              "relational-join oracle by the correspondence (merge_inner as a multiset of pairs: pandas does not keep the "
-              "order of duplicate right rows). Session.join is modelled and compared, no theorem. Payload values are "
-              "unbounded Int in the model; dtype behaviour (int32/float64 payloads, fixed-string keys) is exercised by the "
-              "correspondence only.")
+              "unfixed tree the check reports the witnesses in corpus/C19 as violations). The streamed form is proved by "
+              "loop-invariant proofs of the two legacy drivers (Lemmas/C19StreamKernel, C19StreamDriver, C19MapStream, "
+              "C19MapStreamDriver): global positions, views = unconsumed part of the current chunk, output = join of the "
+              "consumed prefix, termination measure; its one extra hypothesis is len(source table) <= INVALID_INDEX = 2^62 "
+              "(ordered_map_valid_stream_old fetches the next source chunk when the last map entry it looked at is >= "
+              "df_range[1] and < len(data) without testing it against the marker, so a marker that is also a row number "
+              "misleads it — reproducible through ops.ordered_map_valid_stream_old with invalid=3, never through Session). "
+              "ndarray sinks are covered when zero-initialised (map_valid leaves marker rows as the caller's array had "
+              "them). The three `_partial` statements of the earlier revision are kept as obligations (superseded). Open "
+              "finding NC19d (ordered_merge_* reject an IndexedStringField payload) is modelled as found, has Witness "
+              "theorems, and is excluded from the ordered_merge theorems by their restriction to numeric payloads. "
+              "Session.merge_left/right/inner delegate the join to pandas.merge, which is a parameter of the model: the "
+              "theorems merge_left_maps_pandas_rows / merge_right_maps_pandas_rows / merge_inner_maps_pandas_rows say the "
+              "payloads are mapped through the rows pandas returned (in range), whatever they are; that pandas returns the "
+              "relational join is an assumption, compared by the correspondence (merge_inner as a multiset of pairs: pandas "
+              "does not keep the order of duplicate right rows). Session.join (join_correct) is proved for the documented "
+              "use: one value per run of fkey_indices, every key a destination row or a marker >= INVALID_INDEX, the rows "
+              "of a key contiguous; outside it (a key in two runs: the last run wins; negative keys wrap) the model mirrors "
+              "numpy's fancy-index assignment and is only compared. Payload "
+              "values are unbounded Int in the model; dtype behaviour (int32/float64 payloads, fixed-string keys) is "
+              "exercised by the correspondence only.")
 RULE = ("exhaustive: all pairs of non-decreasing key columns over a k-letter alphabet with length <= n (quick k=3,n=4; "
         "thorough k=4,n=5) x every flat kernel whose uniqueness assumption the pair satisfies x the streamed_old drivers "
         "with chunk sizes 1..6 x Session.ordered_merge_left/right (array / field / field+sinks / array+sinks / streamed "
